@@ -20,6 +20,7 @@ static email_fn EMAIL[4] = { is_822_email, is_5321_email, is_5322_email, is_6531
 static const char *MN[4] = { "822", "5321", "5322", "6531" };
 static const EAV_RFC RFC[4] = { EAV_RFC_822, EAV_RFC_5321, EAV_RFC_5322, EAV_RFC_6531 };
 static eav_t ALL[4], NONE[4];
+static int g_all_lp;      /* replay: try every local-part shape */
 static int g_distinct;   /* set by a generator while the domains it emits are pairwise distinct by construction */
 
 static int expected_class(const char *d, size_t n) {
@@ -34,18 +35,26 @@ static int expected_class(const char *d, size_t n) {
 static void check_class(const char *sub, const char *d, size_t n) {
     if (n + 3 > 600) return;
     if (ref_domain((const unsigned char *)d, n, 0) != R_ACC || d[n - 1] == '.') return;   /* out of the statement's scope */
-    char buf[640]; buf[0] = 'x'; buf[1] = '@'; memcpy(buf + 2, d, n); buf[n + 2] = 0;
-    mc_current(sub, "", d, n);
+    /* the local part must not matter: three shapes (one with dots, one quoted with a dot and an '@'); single-label domains get all of them,
+     * the others rotate through them */
+    static const char *const LP[3] = { "x", "first.last", "\"q.r@s\".t" };
+    static unsigned rot;
+    int single = memchr(d, '.', n) == NULL;
     int exp = expected_class(d, n);
+    for (int lpi = 0; lpi < ((single || g_all_lp) ? 3 : 1); lpi++) {
+    const char *lp = LP[(single || g_all_lp) ? lpi : (rot++ % 3)]; size_t lpl = strlen(lp);
+    char buf[700]; memcpy(buf, lp, lpl); buf[lpl] = '@'; memcpy(buf + lpl + 1, d, n); buf[lpl + 1 + n] = 0;
+    size_t off = lpl + 1;
+    mc_current(sub, lp, d, n);
     MC_ADD(C_CASES, 1);
     if (g_distinct) MC_ADD(C_NONTRIV, 1);
     MC_ADD(exp == TLD_TYPE_SPECIAL ? C_SPECIAL : exp == -EEAV_DOMAIN_NOT_FQDN ? C_NOTFQDN : exp > 0 ? C_LISTED : C_UNLISTED, 1);
     int transparent = ref_idn_transparent((const unsigned char *)d, n);
     for (int m = 0; m < 4; m++) {
-        eav_result_t *r = EMAIL[m](buf, n + 2, true);
+        eav_result_t *r = EMAIL[m](buf, n + off, true);
         int rc = r->rc; eav_result_free(r);
         MC_ADD(C_EVAL, 1);
-        char cfg[32]; snprintf(cfg, sizeof cfg, "mode=%s", MN[m]);
+        char cfg[64]; snprintf(cfg, sizeof cfg, "mode=%s lp=%d", MN[m], (int)(lp == LP[0] ? 0 : lp == LP[1] ? 1 : 2));
         if (m == 3 && rc == -EEAV_IDN_ERROR && !transparent) { MC_ADD(C_SKIP6531, 1); continue; }   /* IDNA rejects this ASCII spelling (C10) */
         if (rc != exp) {
             char w[96];
@@ -56,8 +65,8 @@ static void check_class(const char *sub, const char *d, size_t n) {
             mc_violation(sub, w, "", cfg, d, n, "is_%s_email(x@D, tld on): expected rc %d, library rc %d", MN[m], exp, rc);
         }
         /* object API: mask allowing everything accepts iff class; mask allowing nothing rejects with the class code */
-        int ra = eav_is_email(&ALL[m], buf, n + 2), ea = ALL[m].errcode;
-        int rn = eav_is_email(&NONE[m], buf, n + 2), en = NONE[m].errcode;
+        int ra = eav_is_email(&ALL[m], buf, n + off), ea = ALL[m].errcode;
+        int rn = eav_is_email(&NONE[m], buf, n + off), en = NONE[m].errcode;
         MC_ADD(C_EVAL, 2);
         if (exp > 0) {
             int code = EEAV_TLD_NOT_ASSIGNED + exp - TLD_TYPE_NOT_ASSIGNED;
@@ -66,6 +75,8 @@ static void check_class(const char *sub, const char *d, size_t n) {
         } else if (ra != 0 || rn != 0 || ea != -exp || en != -exp)
             mc_violation(sub, "eav:negative-result-not-reflected-by-object-api", "", cfg, d, n, "expected error %d: allow-all ret=%d err=%d, allow-none ret=%d err=%d", -exp, ra, ea, rn, en);
     }
+    }
+    char buf[700]; memcpy(buf + 2, d, n); buf[n + 2] = 0;
     /* the part validators */
     int sp = is_special_domain(buf + 2, buf + 2 + n);
     MC_ADD(C_EVAL, 1);
@@ -212,7 +223,7 @@ static void neigh_shard(long shard, void *arg) {
 
 static int do_replay(void) {
     mc_replay_t r; if (mc_load_replay(mc_replay, &r)) return 2;
-    mc_replay_hit = 0;
+    mc_replay_hit = 0; g_all_lp = 1;
     if (!strcmp(r.sub, "ulabel")) {
         /* find the row by suffix */
         char d[800]; memcpy(d, r.in, (size_t)r.len); d[r.len] = 0;
